@@ -583,3 +583,38 @@ def gen_fault_world(rng):
         w.add_file(tuple(g.target(w.export, f)), f.content)     # one file already exported
     w.add_file((b"bystander", b"note.txt"), b"do not touch")
     return w
+
+
+def execute_cli(w, timeout=60):
+    """run the real command-line binary (built from /repo without the verification cfg) on the world"""
+    base = tempfile.mkdtemp(prefix="tbc-", dir=SHM)
+    try:
+        root, tpaths = materialise(w, base)
+        args = [C.REPO_BIN, "--export", w.export_arg if w.export_arg is not None else os.path.join(root, *[c.decode("utf-8", "surrogateescape") for c in w.export])]
+        scan_args = w.scan_args if w.scan_args is not None else [os.path.join(root, *[c.decode("utf-8", "surrogateescape") for c in s]) for s in w.scan]
+        scan_args = [os.path.join(root, a[len("\x00ABS/"):]) if a.startswith("\x00ABS/") else a for a in scan_args]
+        args += ["--scan"] + scan_args
+        args += ["--torrents"] + tpaths
+        args += ["--threads", str(w.threads)]
+        if w.resize:
+            args.append("--resize-export-files")
+        r = RunResult()
+        r.world = w
+        try:
+            p = subprocess.run(args, cwd=root, stdout=subprocess.PIPE, stderr=subprocess.PIPE, timeout=timeout)
+            r.rc, r.stdout, r.stderr = p.returncode, p.stdout.decode("utf-8", "replace"), p.stderr.decode("utf-8", "replace")
+        except subprocess.TimeoutExpired as e:
+            r.rc, r.stdout, r.stderr = "timeout", (e.stdout or b"").decode("utf-8", "replace"), ""
+        r.after_dirs, r.after_files = snapshot(root)
+        r.counters = []
+        r.progress_total = None
+        for line in r.stdout.split("\n"):
+            m = PROGRESS.search(line)
+            if m and line.startswith("Availability"):
+                r.counters.append((int(m.group(1)), int(m.group(2)), int(m.group(3))))
+                r.progress_total = int(m.group(4))
+        r.unable = r.stderr.count("Unable to load torrent")
+        r.error_line = any(l.startswith("Error:") for l in r.stderr.split("\n"))
+        return r
+    finally:
+        shutil.rmtree(base, ignore_errors=True)
